@@ -447,6 +447,20 @@ def curated_special():
             out.append(('same-literal-sites-%s-%s' % (ltag, stag), [
                 ('rule', 'start', None, body),
                 ('rule', 'W', ['p'], ('seq', [('ref', 'p'), ('opt', ('str', '!'))]))]))
+    # a call nested in a call: the inner call (and the inline Python among its arguments) happens where
+    # and when the outer body uses the parameter -- not at all when it does not
+    out.append(('nested-call-lazy', [
+        ('rule', 'start', None, ('let', 'n', ('opt', ('left', D, ('str', ':'))), ('call', 'Guarded', [('call', 'Take', [('py', 'n * 2')])]))),
+        ('rule', 'Guarded', ['p'], ('alt', [('str', '~'), ('ref', 'p')])),
+        ('rule', 'Take', ['k'], ('rep', ('str', 'a'), ('name', 'k'), ('name', 'k')))]))
+    out.append(('nested-call-lazy-kw', [
+        ('rule', 'start', None, ('let', 'n', ('opt', ('left', D, ('str', ':'))), ('seq', [('call', 'Guarded', [('kw', 'p', ('call', 'Take', [('kw', 'k', ('py', 'n + 1'))]))]), ('opt', ('str', '!'))]))),
+        ('rule', 'Guarded', ['p'], ('alt', [('str', '~'), ('seq', [('ref', 'p'), ('opt', ('ref', 'p'))])])),
+        ('rule', 'Take', ['k'], ('rep', ('str', 'a'), ('name', 'k'), ('name', 'k')))]))
+    out.append(('nested-call-lazy-side-effect', [
+        ('rule', 'start', None, ('let', 'xs', ('py', '[]'), ('seq', [('call', 'Guarded', [('call', 'Note', [('py', "xs.append('evaluated') or 'a'")])]), ('py', 'list(xs)')]))),
+        ('rule', 'Guarded', ['p'], ('alt', [('str', '~'), ('ref', 'p')])),
+        ('rule', 'Note', ['v'], ('seq', [T, ('py', 'v')]))]))
     # bare bound names as arguments: let, field, parameter
     out.append(('bound-let', [
         ('rule', 'start', None, ('let', 'q', T, ('seq', [('call', 'V', [('ref', 'q')]), ('call', 'V', [('py', 'q + q')])]))),
